@@ -194,7 +194,10 @@ def gen(
                         file_to_input_mapping,
                         parse_name=parse_name,
                     ),
-                    map(partial(path.join, input_mapping), listdir(input_mapping)),
+                    map(
+                        partial(path.join, input_mapping),
+                        sorted(listdir(input_mapping)),
+                    ),
                 ),
             ),
             maxlen=0,
